@@ -602,6 +602,10 @@ def c07(res, wd):
     engines.obs_runs(res, "C07", ps, {"C07"}, wd, "c07",
                      nontrivial=lambda st, pl: st["discInputs"] >= 5)
     engines.conform_sample(res, "C07", ps, wd, "c07", sizes(res.tier, 3, 12))
+    # three peers: the drop of one player is handled in the very call that also repairs a misprediction of the
+    # other remote player (two reasons to roll back, the earlier one must win); alignment swept systematically
+    ms = [plans.mis3(rng, 40, i=i) for i in range(sizes(res.tier, 9, 36))]
+    engines.obs_runs(res, "C07", ms, {"C07"}, wd, "c07m", nontrivial=lambda st, pl: st["discInputs"] >= 5)
     # disconnect_player with a spectator handle: the host and its other spectators carry on, the kicked
     # spectator runs into its own time-out
     ks = [_spec_kick_plan(rng, rng.choice([60, 120])) for _ in range(sizes(res.tier, 6, 30))]
@@ -613,8 +617,9 @@ def c07(res, wd):
                 "flight or disconnected explicitly; Monitor.tla judges event timing against the virtual clock "
                 "(NetworkInterrupted only after notify of silence, Disconnected only after timeout, both reported at "
                 "the first poll after they were due, once) and the survivor's final timeline (real inputs up to the "
-                "cut-off, default+Disconnected after it, also for frames first simulated with predictions); "
-                "non-trivial = >=5 frames simulated with a Disconnected input")
+                "cut-off, default+Disconnected after it, also for frames first simulated with predictions); three-peer "
+                "runs in which the explicit disconnect of a dead player coincides with the repair of a misprediction of "
+                "the other remote player; non-trivial = >=5 frames simulated with a Disconnected input")
 
 
 # ---------------------------------------------------------------------------------------------
@@ -829,6 +834,10 @@ def c12(res, wd):
         p["min_progress"] = 10
         ps.append(p)
     engines.obs_runs(res, "C12", ps, {"C12", "C05"}, wd, "c12hs", nontrivial=lambda st, pl: st["dropped"] >= 10)
+    # (a') handshakes over a link with more than a second of one-way latency: up to ten requests are outstanding when
+    # the replies to the oldest ones arrive; each of them is a matched round trip
+    sh = [plans.slowhs(rng, 20) for _ in range(sizes(res.tier, 3, 12))]
+    engines.obs_runs(res, "C12", sh, {"C12"}, wd, "c12slow", nontrivial=lambda st, pl: st["events"] >= 8)
     # (b) silences of every length around the notify delay and the timeout
     nsl = sizes(res.tier, 16, 120)
     sl = [_silence_plan(rng, "spec" if i % 4 == 3 else "p2") for i in range(nsl)]
@@ -861,7 +870,7 @@ def c12(res, wd):
     res.rule = ("(1) MC_Handshake.tla (two endpoints from Protocol.tla's operators; loss, duplication, reordering, stray "
                 "replies with unissued / consumed nonces or a foreign magic): Running iff exactly 5 matched round trips, "
                 "event word Synchronizing(1..4) Synchronized, liveness Completes under weak fairness; (2) real sessions: "
-                "handshakes under 20-60% loss, silences of notify/timeout -220..+150 ms, never-drained sessions with "
+                "handshakes under 20-60% loss and over links with 1.1-1.9 s latency, silences of notify/timeout -220..+150 ms, never-drained sessions with "
                 "frequent interruptions, poll-only pairs at cadences 1..199 ms.  Monitor.tla: per-address event automaton, "
                 "Synchronized only after 5 matched request/reply round trips counted from the packets, Running iff all "
                 "remotes synchronized, NotSynchronized before, interruption/disconnect neither early nor late, "
@@ -1237,6 +1246,7 @@ def c13(res, wd):
     rng = random.Random(res.seed * 1000 + 130)
     n, frames = sizes(res.tier, (24, 120), (160, 500))
     ps = [_st_plan(rng, frames, glitch=(i % 2 == 1)) for i in range(n)]
+    tps = []
     # every (check distance, k-th simulation) pair: the deviation on each possible re-simulation
     for cd in range(2, sizes(res.tier, 5, 8)):
         for k in range(1, cd + 2):
@@ -1246,7 +1256,16 @@ def c13(res, wd):
             p["cfg"]["glitch_k"] = k
             p["cfg"]["glitch_frame"] = rng.randrange(cd + 1, frames - cd - 8)
             ps.append(p)
+            if k >= 2:
+                # the same deviation, but transient: only the checksum of the state saved right after the k-th
+                # simulation differs (a recomputed field), later frames are unaffected
+                q = json.loads(json.dumps(p))
+                q["cfg"]["glitch_transient"] = True
+                q["seed"] += 1
+                tps.append(q)
     engines.obs_runs(res, "C13", ps, {"C13", "C02", "C03", "C01"}, wd, "c13", batch=4,
+                     nontrivial=lambda st, pl: st["loads"] >= 10)
+    engines.obs_runs(res, "C13", tps, {"C13", "C02"}, wd, "c13t", batch=4,
                      nontrivial=lambda st, pl: st["loads"] >= 10)
     # binding of SyncTest.tla: real sessions replayed through the specification (Trace_ST)
     sel = ps[:sizes(res.tier, 6, 30)]
@@ -1426,6 +1445,19 @@ def c18(res, wd):
         p["tick_ms"] = [16] + [21] * (len(p["tick_ms"]) - 1)
         p["max_ms"] = 400000
         ps.append(p)
+    # events never drained while a really diverging game produces a DesyncDetected event at every report: a quiet
+    # network, so nothing but these events ever enters the queue
+    for i in range(sizes(res.tier, 2, 6)):
+        iv = rng.choice([1, 1, 2])
+        p = plans.general(rng, 200 + 130 * iv, npeers=2, max_locals=1, cfg={"desync": iv, "sparse": False},
+                          loss=0.0, dup=0.0)
+        p["cfg"]["peers"][rng.randrange(2)]["corrupt_from"] = rng.randrange(1, 30)
+        p["drain"] = False
+        p["p_pause"] = 0.0
+        p["jitter"] = 0
+        p["lat_lo"] = p["lat_hi"] = rng.choice([0, 5, 20])
+        p["tick_ms"] = [16, 16]
+        ps.append(p)
     # a spectator that stops acknowledging (it dies): it must be disconnected, not buffered for
     for i in range(sizes(res.tier, 3, 10)):
         p = plans.general(rng, 500, npeers=rng.choice([1, 2]), spectators=1)
@@ -1448,7 +1480,8 @@ def c18(res, wd):
                 "unacknowledged inputs per player endpoint <= min(129, 2W + 2*max delay + 8) and per spectator endpoint "
                 "<= 128 + W + 2, received-input history <= 2W + 2, stored checksums <= 33, socket queue empty after "
                 "every poll; runs of 3000-20000 frames on all C01 topologies, all-local sessions, never-drained "
-                "sessions with frequent interruptions, and a spectator that dies (must end up Disconnected).  "
+                "sessions with frequent interruptions, never-drained sessions of a really diverging game (a DesyncDetected "
+                "event per report), and a spectator that dies (must end up Disconnected).  "
                 "non-trivial = >=1000 calls")
 
 
@@ -1494,6 +1527,9 @@ def c17(res, wd):
     # four peers: one reports the drop of a player, another one (silent since) still holds an older view of it;
     # the cut-off must not depend on the order in which the endpoints are asked
     ps += [plans.gossip4(rng, 40) for _ in range(sizes(res.tier, 3, 12))]
+    # handshakes over a link with more than a second of latency: many requests are outstanding when the replies to
+    # the oldest ones arrive
+    ps += [plans.slowhs(rng, 20) for _ in range(sizes(res.tier, 2, 8))]
     # TLC-generated schedules for the 2+1-local-players and the 3-peer model are repeated as well
     scheds = []
     for tag, over in (("g21", {"Peers": "GenPeers21", "NumPlayers": 3, "MaxFrame": 6, "MaxSteps": 70, "DelayValues": "{0, 1}"}),
